@@ -16,19 +16,53 @@ from dask import config
 from dask_array._expr import ArrayExpr, RootAlias, _chunks_match
 
 # Process-wide, ``_name``-keyed cache of one-pass lowering results, shared across
-# every ``_lower`` call.  Lowering is a deterministic, context-free function of a
-# node's structure (captured by its ``_name``), so memoizing by ``_name`` is safe.
-# This relies on every ``_lower`` override depending only on ``self`` — not on
-# config, parent context, or randomness (unlike ``_simplify_up``, or the ``_layer``
-# methods that legitimately read config at graph-build time).  A ``_lower`` that
-# read config would make this cache serve stale results across config changes.
+# every ``_lower`` call.  Lowering is a deterministic function of a node's
+# structure (captured by its ``_name``) *and of the configuration its ``_lower``
+# methods read*: chunk unification reads ``array.unify-chunks-policy``/``-limit``,
+# reductions read ``split_every``, rechunk reads ``array.rechunk.method``.  So
+# results are memoized by ``_name`` per value of those keys (``_LOWER_CONFIG_KEYS``);
+# a single name-keyed map would serve a layout lowered under one policy to a
+# collection materialized under another (e.g. merged blocks under "refine").
+# A ``_lower`` override must depend only on ``self`` and on the keys listed here
+# -- not on parent context or randomness (unlike ``_simplify_up``, or the
+# ``_layer`` methods that legitimately read config at graph-build time).
 # The payoff is cross-collection sharing: the 666 quantities of one model Dataset
 # share a deep ancestry, and without this each collection re-lowers (and so
 # re-tokenizes) that shared subtree from scratch — O(N^2) over the Dataset.  With
 # the shared cache a shared subtree lowers once.  Weak values bound the cache to
 # lowered expressions that are still live (each is reachable from some collection's
 # ``_lowered_expr``), so it self-evicts as collections are dropped.
-_LOWER_CACHE: weakref.WeakValueDictionary[str, ArrayExpr] = weakref.WeakValueDictionary()
+_LOWER_CONFIG_KEYS = (
+    "array.unify-chunks-policy",
+    "array.unify-chunks-limit",
+    "array.rechunk.method",
+    "split_every",
+)
+
+
+class _LowerCache:
+    """``_name`` -> lowered expression, one weak map per lowering configuration."""
+
+    def __init__(self):
+        self._by_config: dict[tuple, weakref.WeakValueDictionary[str, ArrayExpr]] = {}
+
+    def for_config(self):
+        """The map for the lowering-relevant configuration in effect now."""
+        key = tuple(repr(config.get(k, None)) for k in _LOWER_CONFIG_KEYS)
+        try:
+            return self._by_config[key]
+        except KeyError:
+            cache = self._by_config[key] = weakref.WeakValueDictionary()
+            return cache
+
+    def clear(self):
+        self._by_config.clear()
+
+    def __len__(self):
+        return sum(len(c) for c in self._by_config.values())
+
+
+_LOWER_CACHE = _LowerCache()
 
 
 def _lower(expr, optimize_graph):
@@ -40,8 +74,9 @@ def _lower(expr, optimize_graph):
     """
     if optimize_graph:
         expr = expr.simplify()
+    lowered = _LOWER_CACHE.for_config()
     while True:
-        new = expr.lower_once(_LOWER_CACHE)
+        new = expr.lower_once(lowered)
         if new._name == expr._name:
             return expr
         expr = new
